@@ -551,6 +551,37 @@ fn flibs_cmd(t: &mut Toks) -> String {
     out.join(" ;; ")
 }
 
+/// replref <n> <line-hex>*   (an empty line is written as "-")
+/// the REPL protocol as the property states it, on the lines as the line editor delivers them: the text entered since the last
+/// submission is evaluated as soon as it passes the completeness test (the crate's own check_bracket_closed), not before;
+/// a value other than the unspecified one is printed on stdout, an error on stderr. Returns "OK R <stdout-hex> <stderr-hex>".
+fn replref_cmd(t: &mut Toks) -> String {
+    let n: usize = t.int();
+    let mut it = Interpreter::<f32>::new_with_stdlib();
+    let mut source = String::new();
+    let mut out = String::new();
+    let mut err = String::new();
+    for _ in 0..n {
+        let tok = t.next();
+        let line = if tok == "-" { String::new() } else { unhex(tok) };
+        if line.is_empty() {
+            continue;
+        }
+        source.push_str(&line);
+        if ruschm::repl::__verif_check_bracket_closed(&source) {
+            match it.eval(source.chars()) {
+                Ok(Some(Value::Void)) | Ok(None) => (),
+                Ok(Some(v)) => out.push_str(&format!("{}\n", v)),
+                Err(e) => err.push_str(&format!("{}\n", e)),
+            }
+            source.clear();
+        } else {
+            source.push('\n');
+        }
+    }
+    format!("OK R {} {}", if out.is_empty() { "-".to_string() } else { hex(&out) }, if err.is_empty() { "-".to_string() } else { hex(&err) })
+}
+
 fn run_line(line: &str) -> String {
     let mut t = Toks {
         t: line.split_whitespace().collect(),
@@ -648,6 +679,7 @@ fn run_line(line: &str) -> String {
         }
         "libs" => libs_cmd(&mut t),
         "flibs" => flibs_cmd(&mut t),
+        "replref" => replref_cmd(&mut t),
         "scope" => scope_cmd(&mut t),
         "c18sweep" => c18sweep(t.int()),
         "refdepth" => {
